@@ -290,7 +290,6 @@ def rule_T9(ctx, f):
                 ex = inline.expand_body(f, b, lambda pth: strip_generics(pth) in (H + "LocalHistogram::new", H + "LocalHistogramCore::new", H + "LocalHistogramTimer::new"))
                 r2 = peel(ex.term_local(0), transparent=[])
                 if isinstance(r2, tuple) and r2 and r2[0] == "agg" and r2[2].endswith("LocalHistogramTimer::LocalHistogramTimer"):
-                    from pvrules.rules import agg_field
                     ok = C12.fresh_empty_local(ex, agg_field(r2, "local"))
             if not ok and isinstance(r, tuple) and r and r[0] == "agg" and strip_generics(str(r[2])).startswith(H + ctor.split("::")[0] + "::"):
                 # the constructor expanded in place: the aggregate itself holds self.clone()
